@@ -14,10 +14,13 @@ func parseUrlPath(pathStr string, m meta.Definition) ([]*Path, error) {
 	p := &Path{Meta: m}
 	path := []*Path{}
 	segments := strings.Split(pathStr, "/")
-	for _, segment := range segments {
+	for i, segment := range segments {
 
 		// a/b/c same as a/b/c/
 		if segment == "" {
+			if i < len(segments)-1 {
+				return nil, fmt.Errorf("%w. empty segment in path %s", fc.BadRequestError, pathStr)
+			}
 			break
 		}
 
